@@ -10,7 +10,7 @@ A = "bounded-exhaustive enumeration of a closed small-scope input universe again
 checks = {
  # id: (engine, category, text, note, technique, design_ref)
  "C10": ("engine-B", "model_checking",
-   "all interleavings with at most k deviations of 2-3 goroutines calling EndPoint.Send on one real endpoint, with and without read fragmentation, four handler filters on the receiving endpoint, concurrent handler registration, frames already waiting while EndPointFinalizer builds the endpoint, a frame of exactly MaxPayloadSize bytes, senders after sends that failed on other connections of the process, twelve handlers on the receiving endpoint (table beyond its 10 initial slots), senders mixing message types (event, post, reply, call, error, capability), an AddHandler consumer with a backlog when the handler ends by Close / peer close / RemoveHandler; every execution checked for intact frames, exactly-once delivery, per-sender order, per-filter subsequence and a single arrival order",
+   "all interleavings with at most k deviations of 2-3 goroutines calling EndPoint.Send on one real endpoint, with and without read fragmentation, four handler filters on the receiving endpoint, concurrent handler registration, frames already waiting while EndPointFinalizer builds the endpoint, a frame of exactly MaxPayloadSize bytes, senders after sends that failed on other connections of the process, twelve handlers on the receiving endpoint (table beyond its 10 initial slots), senders mixing message types (event, post, reply, call, error, capability), an AddHandler consumer with a backlog when the handler ends by Close / peer close / RemoveHandler, two senders through the library's own stream wrapper against a reader that starts late (a write deadline, if the code sets one, may expire mid-buffer); every execution checked for intact frames, exactly-once delivery, per-sender order, per-filter subsequence and a single arrival order",
    "one in-memory stream with the net.Conn contract (atomic Write) stands for the five transports; the kernel/TLS transports themselves are not model-checked",
    B, "DESIGN.md section 4, C10"),
  "C11": ("engine-B", "model_checking",
@@ -18,7 +18,7 @@ checks = {
    "faults are injected through the public net.Stream interface of an in-memory stream; time is logical (bounded time = before quiescence)",
    B + " + exhaustive fault-point enumeration", "DESIGN.md section 4, C11"),
  "C17": ("engine-B", "model_checking",
-   "all schedules with at most k deviations of eighteen closed harnesses around one real net.EndPoint (register / remove / every filter answer including self-removal with and without consuming / full queues / incoming frames / Close / peer close mid-frame / blocked error reply / AddHandler's callback consumer / a transport whose Close reports an error or that was closed underneath / Close inside the finalizer / frames that no handler selects, incl. Error frames with non-string payloads); monitors in the closer and the queue reader check closer-once-then-queue-closed-once, no message after close, removal results, identifier reuse",
+   "all schedules with at most k deviations of eighteen closed harnesses around one real net.EndPoint (register / remove / every filter answer including self-removal with and without consuming / full queues / incoming frames / Close / peer close mid-frame / blocked error reply / AddHandler's callback consumer / a transport whose Close reports an error or that was closed underneath / Close inside the finalizer / frames that no handler selects, incl. Error frames with non-string payloads / a table grown to 11..14 handlers, partly emptied, then shut down); monitors in the closer and the queue reader check closer-once-then-queue-closed-once, no message after close, removal results, identifier reuse",
    "trusts the vrt model of mutexes and channels and the in-memory stream; bounded by deviation count",
    B, "DESIGN.md section 4, C17"),
 }
